@@ -84,6 +84,20 @@ def run(res):
         twin = {"same_as": base[i - 1].get("same_as", i), "argspec": [list(x) for x in base[i - 1]["argspec"]], "kwspec": base[i - 1]["kwspec"]}
         twin["argspec"][a] = ["v", rng.choice([j - 1, j])]
         progs.append(base + [twin])
+    # the same function called with a list and with the equal tuple (and with nested / empty variants): different
+    # calls, two boxes.  Tuples are outside Model/Plot.v's argument language: these programs are judged by the
+    # property's counts only (no model comparison).
+    nomodel = set()
+    for k in range(8 if res.tier == "quick" else 40):
+        base = gen_program(rng, allow_dups=False)[:3]
+        items = [["v", rng.randint(0, 3)] for _ in range(rng.choice([0, 1, 2, 2]))]
+        i = len(base) + 1
+        pos = rng.random() < 0.6
+        first = {"argspec": [["l", items]] if pos else [], "kwspec": [] if pos else [["a", ["l", items]]]}
+        twin = {"same_as": i, "argspec": [["t", items]] if pos else [], "kwspec": [] if pos else [["a", ["t", items]]]}
+        pair = [first, twin] if rng.random() < 0.5 else [dict(twin, same_as=i), dict(first, same_as=i)]
+        nomodel.add(len(progs))
+        progs.append(base + pair)
     cases = [{"mode": "exec", "kwargs": {"plot_dependency_graph": True}, "calls": p,
               "ops": [["submit", i + 1] for i in range(len(p))] + [["exit"]], "schedule": lockstep.gen_schedule(rng, 400),
               "step_limit": 600} for p in progs]
@@ -114,7 +128,7 @@ def run(res):
         mism, fails, hits = [], [], 0
         try:
             outs = core.eval_strings(IMPORTS, ["show_graph (graph [%s])%%nat" % "; ".join(call_coq(i + 1, c) for i, c in enumerate(p))
-                                               for p in progs], PID + "_graph")
+                                               if k not in nomodel else '"-"' for k, p in enumerate(progs)], PID + "_graph")
         except core.CaseEvalError as ex:
             outs = None
             pr["ok"] = False
@@ -130,7 +144,7 @@ def run(res):
             g = r["graphs"][0]
             impl = ",".join("%s#%d%s" % (lab, nid, "b" if sh == "box" else "c") for nid, lab, sh in g["nodes"]) + "|" + \
                 ",".join("%d>%d:%s" % (a, b, lab) for a, b, lab in g["edges"])
-        if outs is not None and outs[k] != impl:
+        if outs is not None and k not in nomodel and outs[k] != impl:
             mism.append({"program": p, "implementation": impl, "model": outs[k]})
         # nothing runs, futures done at once
         labels = {lab[0] for en, pick, lab in r.get("trace", [])}
